@@ -15,6 +15,7 @@ type Site struct {
 	Instr  ssa.Instruction
 	Kind   string // index | slice | make | div | assert | panic | loop
 	Expr   string // position-free rendering of the operation
+	Coarse string // shape-insensitive rendering: fields by owning type, indices elided (for triage entries that survive loop-form changes)
 	OK     bool
 	Reason string // unproved goal(s)
 }
@@ -91,7 +92,16 @@ func sketch(v ssa.Value, d int) string {
 	}
 	switch x := v.(type) {
 	case *ssa.Parameter:
-		return x.Name()
+		// position, not name: renaming a parameter must not change an obligation key
+		for i, p := range x.Parent().Params {
+			if p == x {
+				if i == 0 && x.Parent().Signature.Recv() != nil {
+					return "recv"
+				}
+				return fmt.Sprintf("arg%d", i)
+			}
+		}
+		return "arg"
 	case *ssa.Const:
 		if x.Value == nil {
 			return "nil"
@@ -148,27 +158,96 @@ func sketch(v ssa.Value, d int) string {
 	case *ssa.Extract:
 		return sketch(x.Tuple, d+1) + fmt.Sprintf("#%d", x.Index)
 	case *ssa.Phi:
-		if c := x.Comment; c != "" {
-			return c
-		}
-		return "φ"
+		return "φ" // (not the source variable's name: locals may be renamed)
 	case *ssa.Alloc:
-		if x.Comment != "" {
-			return x.Comment
-		}
-		return "alloc"
+		return "var"
 	case *ssa.MakeSlice:
 		return "make(" + sketch(x.Len, d+1) + ")"
 	case *ssa.Global:
 		return x.Name()
 	case *ssa.FreeVar:
-		return x.Name()
+		return "free"
 	case *ssa.Next:
 		return "next"
 	case *ssa.TypeAssert:
 		return sketch(x.X, d+1) + ".(T)"
 	}
 	return "?"
+}
+
+// csketch renders a value by what it is rather than how it was reached: a field is "Type.field" whatever path led to
+// its struct, an index is "[*]", locals and parameters are anonymous.
+func csketch(v ssa.Value, d int) string {
+	if d > 6 {
+		return "…"
+	}
+	owner := func(t types.Type, i int) string {
+		if p, ok := t.Underlying().(*types.Pointer); ok {
+			t = p.Elem()
+		}
+		name := "struct"
+		if n, ok := t.(*types.Named); ok {
+			name = n.Obj().Name()
+		}
+		return name + "." + fieldName(t, i)
+	}
+	switch x := v.(type) {
+	case *ssa.Const:
+		if x.Value == nil {
+			return "nil"
+		}
+		return x.Value.ExactString()
+	case *ssa.FieldAddr:
+		return owner(x.X.Type(), x.Field)
+	case *ssa.Field:
+		return owner(x.X.Type(), x.Field)
+	case *ssa.UnOp:
+		if x.Op == token.MUL {
+			return csketch(x.X, d+1)
+		}
+		return x.Op.String() + csketch(x.X, d+1)
+	case *ssa.IndexAddr:
+		return csketch(x.X, d+1) + "[*]"
+	case *ssa.Index:
+		return csketch(x.X, d+1) + "[*]"
+	case *ssa.Lookup:
+		return csketch(x.X, d+1) + "[*]"
+	case *ssa.Slice:
+		return csketch(x.X, d+1) + "[:]"
+	case *ssa.BinOp:
+		return "(" + csketch(x.X, d+1) + x.Op.String() + csketch(x.Y, d+1) + ")"
+	case *ssa.Convert:
+		return csketch(x.X, d+1)
+	case *ssa.ChangeType:
+		return csketch(x.X, d+1)
+	case *ssa.Call:
+		if b, ok := x.Call.Value.(*ssa.Builtin); ok {
+			s := b.Name() + "("
+			for i, a := range x.Call.Args {
+				if i > 0 {
+					s += ","
+				}
+				s += csketch(a, d+1)
+			}
+			return s + ")"
+		}
+		if f := x.Call.StaticCallee(); f != nil {
+			return f.Name() + "(…)"
+		}
+		if x.Call.IsInvoke() {
+			return x.Call.Method.Name() + "(…)"
+		}
+		return "call(…)"
+	case *ssa.Extract:
+		return csketch(x.Tuple, d+1) + fmt.Sprintf("#%d", x.Index)
+	case *ssa.MakeSlice:
+		return "make(" + csketch(x.Len, d+1) + ")"
+	case *ssa.Global:
+		return x.Name()
+	case *ssa.TypeAssert:
+		return csketch(x.X, d+1) + ".(T)"
+	}
+	return "_"
 }
 
 func fieldName(t types.Type, i int) string {
@@ -188,7 +267,7 @@ func (e *Fn) indexSite(in ssa.Instruction, x, idx ssa.Value) Site {
 	g2 := n.Sub(i).AddK(-1)   // i < len
 	ok1 := e.Prove(in, g1)
 	ok2 := e.Prove(in, g2)
-	s := Site{Instr: in, Kind: "index", Expr: vname(x) + "[" + vname(idx) + "]", OK: ok1 && ok2}
+	s := Site{Instr: in, Kind: "index", Expr: vname(x) + "[" + vname(idx) + "]", Coarse: csketch(x, 0) + "[*]", OK: ok1 && ok2}
 	if !s.OK {
 		var gs []lin.Form
 		if !ok1 {
@@ -238,7 +317,7 @@ func (e *Fn) sliceSite(x *ssa.Slice) Site {
 			failed = append(failed, g)
 		}
 	}
-	return Site{Instr: x, Kind: "slice", Expr: vname(x), OK: ok, Reason: reason(ok, e, failed...)}
+	return Site{Instr: x, Kind: "slice", Expr: vname(x), Coarse: csketch(x, 0), OK: ok, Reason: reason(ok, e, failed...)}
 }
 
 func (e *Fn) makeSite(x *ssa.MakeSlice) *Site {
@@ -250,7 +329,7 @@ func (e *Fn) makeSite(x *ssa.MakeSlice) *Site {
 	// an attacker-chosen 32/64-bit size is an allocation bomb: the size must be built from input lengths,
 	// ≤16-bit quantities and constants, or be provably ≤ 1<<20
 	bounded := e.boundedSize(x.Len, 0) || e.Prove(x, lin.Const(1<<20).Sub(n))
-	s := &Site{Instr: x, Kind: "make", Expr: "make(" + vname(x.Len) + ")", OK: ok && bounded}
+	s := &Site{Instr: x, Kind: "make", Expr: "make(" + vname(x.Len) + ")", Coarse: "make(" + csketch(x.Len, 0) + ")", OK: ok && bounded}
 	if !ok {
 		s.Reason = reason(false, e, n)
 	} else if !bounded {
@@ -270,7 +349,7 @@ func (e *Fn) divSite(x *ssa.BinOp) *Site {
 		// negative divisors are fine too
 		ok = e.Prove(x, d.Scale(-1).AddK(-1))
 	}
-	return &Site{Instr: x, Kind: "div", Expr: vname(x), OK: ok, Reason: reason(ok, e, g)}
+	return &Site{Instr: x, Kind: "div", Expr: vname(x), Coarse: csketch(x, 0), OK: ok, Reason: reason(ok, e, g)}
 }
 
 // boundedSize: the value is a combination of lengths, ≤16-bit quantities and constants.
